@@ -59,6 +59,10 @@ class ModuleInfo:
                         self.stars.append(mod)
                     else:
                         self.imports[a.asname or a.name] = (mod, a.name)
+            elif isinstance(node, ast.If) and isinstance(node.test, ast.Name) and node.test.id == "NATIVE":
+                # harness files: `if NATIVE: ... else: ...` - NATIVE is False on the symbolic side, so the else branch is the
+                # one that defines the module's names (taking the body would silently make symbolic constants concrete)
+                self._scan(node.orelse)
             elif isinstance(node, (ast.If, ast.Try)):
                 # e.g. try: import x / except ImportError
                 self._scan(node.body)
